@@ -1416,12 +1416,23 @@ theorem serviceCore_extra (e : Engine) (cap prefill : Nat) (hinv : Inv e) (h : E
       · exact serviceQueue_extra e false cap prefill hok hb h (fun hh => by cases hh)
   | connected =>
     simp only []
-    have hka := serviceKeepAlive_hk e (by rw [hst]; decide)
-    have hoka := (hka.stp.pres hok).1
-    have ha := hka.stp.keeps hok hb
-    have sva := hka.sv
-    have xa := serviceKeepAlive_extra e ⟨hok, hb, ‹_›, ‹_›⟩ h
-    generalize e.serviceKeepAlive = ka at hka hoka ha sva xa ⊢
+    have hk0 := processAckTimeouts_hk (e.timeouts.length + 1) e
+    have hinv0 := (hk0.inv ⟨hok, hb, ‹_›, ‹_›⟩ (by rw [hst]; decide)).1
+    have sv0 := hk0.sv
+    have x0 := processAckTimeouts_extra (e.timeouts.length + 1) e h (by rw [hst]; decide)
+    generalize Engine.processAckTimeouts (e.timeouts.length + 1) e = p0 at hk0 hinv0 sv0 x0 ⊢
+    obtain ⟨e0, r0⟩ := p0
+    simp only [] at hinv0 sv0 x0 ⊢
+    split
+    · exact x0
+    have hst0 : e0.state ≠ .pendingConnack := fun hh => by
+      have := sv0.pc hh; rw [hst] at this; cases this
+    have hka := serviceKeepAlive_hk e0 hst0
+    have hoka := (hka.stp.pres hinv0.1).1
+    have ha := hka.stp.keeps hinv0.1 hinv0.2.1
+    have sva := sv0.trans hka.sv
+    have xa := serviceKeepAlive_extra e0 hinv0 x0
+    generalize e0.serviceKeepAlive = ka at hka hoka ha sva xa ⊢
     obtain ⟨ea, ra⟩ := ka
     simp only [] at hoka ha sva xa ⊢
     split
@@ -1843,8 +1854,14 @@ theorem handleData_extra (e : Engine) (bs : Bytes) (hinv : Inv e) (h : Extra fal
     · simp only []
       have h1 : Inv { e with dec := (decodeBytes { version := e.cfg.version, maxSize := e.inboundMax } e.dec bs).dec } :=
         hinv.of_eq rfl rfl
+      have h2 := handlePackets_extra (decodeBytes { version := e.cfg.version, maxSize := e.inboundMax } e.dec bs).packets _ h1 hnd h
+      generalize ({ e with dec := (decodeBytes { version := e.cfg.version, maxSize := e.inboundMax } e.dec bs).dec } : Engine).handlePackets (decodeBytes { version := e.cfg.version, maxSize := e.inboundMax } e.dec bs).packets = x at h2 ⊢
+      obtain ⟨e2, r2⟩ := x
+      simp only [] at h2 ⊢
       split
-      · exact h.halt
-      · exact handlePackets_extra _ _ h1 hnd h
+      · exact h2
+      · split
+        · exact h2.halt
+        · exact h2
 
 end GV
